@@ -86,6 +86,7 @@ pub mod verif_hooks {
     pub use super::links::{Links, TriggerUnlink};
     pub use super::receiver::{ItemResponse, LaneData, ResponseData, ResponseReceiver};
     pub use super::remotes::{RemoteSender, UplinkResponse};
+    pub use super::sender::{LaneSendError, LaneSender};
     pub use super::write_fut::{WriteResult, WriteTask};
     pub use super::{CommandChannelRequest, ExternalLinkRequest, HttpLaneRuntimeSpec};
 
